@@ -21,8 +21,16 @@ static void dec(int s)
 {
 	rotenc_decode(r, (uint8_t)s);
 	last_fed = s;
-	printf("{\"e\":\"D\",\"s\":%d,\"c\":%u,\"c14\":%u}\n", s, rotenc_count(r), rotenc_count14(r));
+	printf("{\"e\":\"D\",\"s\":%d,\"q\":0,\"c\":%u,\"c14\":%u}\n", s, rotenc_count(r), rotenc_count14(r));
 }
+/* a decode after which nobody reads the counts (the ISR decodes, the application looks only now and then) */
+static void decq(int s)
+{
+	rotenc_decode(r, (uint8_t)s);
+	last_fed = s;
+	printf("{\"e\":\"D\",\"s\":%d,\"q\":1,\"c\":0,\"c14\":0}\n", s);
+}
+static void stepq(int dir) { phase += dir; decq(gray[((phase % 4) + 4) % 4]); }
 static void step(int dir) { phase += dir; dec(gray[((phase % 4) + 4) % 4]); }
 
 /* walk n quarter steps in direction dir with a bounce pattern after every step */
@@ -57,6 +65,11 @@ int main(void)
 			for (long i = 0; i < n; i++) dec(dir > 0 ? fw[i % 3] : bw[i % 3]);
 			dec(0); dec(dir > 0 ? 1 : 2); dec(0);
 			for (int k = 0; k < 4; k++) if (gray[k] == last_fed) phase = k;
+		}
+		else if (drv_is(&c, "QWalk")) {        /* n quarter steps without reading, then one read (a decode of the same state) */
+			long n = drv_arg(&c, 0); int dir = drv_arg(&c, 1);
+			for (long i = 0; i < n; i++) stepq(dir);
+			dec(last_fed);
 		}
 		else if (drv_is(&c, "Hold")) {
 			/* the same state polled n times in a row (a knob at rest, or held part-way through a click) */
